@@ -6,6 +6,7 @@ import (
 	"go/format"
 	"math/rand"
 	"strings"
+	"verif/internal/pegsyntax"
 
 	"verif/internal/corpus"
 	"verif/internal/gram"
@@ -20,6 +21,7 @@ type c08case struct {
 	opts gram.PrintOpts
 	kind string
 	text string // printed with package name replaced per variant
+	raw  string // replay: grammar text used verbatim (package clause renamed)
 }
 
 // useFile references the public API of a generated parser, so that "compiles" includes "the API is there".
@@ -155,6 +157,22 @@ func c08(c *ctx) {
 		g.Number()
 		cases = append(cases, &c08case{id: len(cases), g: g, kind: fmt.Sprintf("many-rules-%d", nr), opts: gram.PrintOpts{State: " N int", ActionCode: func(id int) string { return "p.N++" }}})
 	}
+	if c.replay != "" {
+		// --replay: the witness' grammar text verbatim, under all eight option sets
+		text, ok := witnessString(c.replay, "grammar")
+		if !ok {
+			die("this witness has no grammar text")
+		}
+		f, err := pegsyntax.Parse(text)
+		if err != nil {
+			die("witness grammar cannot be read back: %v", err)
+		}
+		g, gerr := fromText(text)
+		if gerr != nil {
+			g = &gram.Grammar{Rules: []*gram.Rule{{Name: "R0", E: gram.Act()}}} // only used to decide whether Execute exists
+		}
+		cases = []*c08case{{id: 0, g: g, kind: "warned", raw: text, opts: gram.PrintOpts{Type: f.Type}}}
+	}
 	peg, err := c.env.BuildPeg(false)
 	if err != nil {
 		die("%v", err)
@@ -177,6 +195,9 @@ func c08(c *ctx) {
 					typ = "P"
 				}
 				text := gram.PrintGrammar(cs.g, o)
+				if cs.raw != "" {
+					text = pkgClause.ReplaceAllString(cs.raw, "package "+pkg)
+				}
 				if v.name == "plain" {
 					cs.text = text
 				}
